@@ -7,6 +7,7 @@ use proptest::collection::vec;
 use proptest::prelude::*;
 use serde::{Deserialize, Serialize};
 
+use crate::backends::{Backend, OutKind};
 use crate::engine::Tier;
 
 /// Element type of the input container.
@@ -535,3 +536,39 @@ pub fn idx(sel: u16, n: usize) -> usize {
         ((sel as usize) * n) >> 16
     }
 }
+
+
+/// Rolling case placed on a backend / output container cell of the matrix.
+#[derive(Clone, Debug, Serialize, Deserialize)]
+pub struct MatCase {
+    pub c: RollCase,
+    pub bk: Backend,
+    pub ok: OutKind,
+}
+
+#[derive(Clone, Debug, Serialize, Deserialize)]
+pub struct Mat2Case {
+    pub c: Roll2Case,
+    pub bk: Backend,
+    pub bk2: Backend,
+    pub ok: OutKind,
+}
+
+pub fn backend_strategy() -> impl Strategy<Value = Backend> {
+    (any::<u8>(), any::<u8>()).prop_map(|(a, b)| Backend::from_sel(a, b))
+}
+
+pub fn outkind_strategy() -> impl Strategy<Value = OutKind> {
+    (0usize..3).prop_map(|i| OutKind::ALL[i])
+}
+
+pub fn mat_case(base: impl Strategy<Value = RollCase>) -> impl Strategy<Value = MatCase> {
+    (base, backend_strategy(), outkind_strategy()).prop_map(|(c, bk, ok)| MatCase { c, bk, ok })
+}
+
+pub fn mat2_case(base: impl Strategy<Value = Roll2Case>) -> impl Strategy<Value = Mat2Case> {
+    (base, backend_strategy(), backend_strategy(), outkind_strategy()).prop_map(|(c, bk, bk2, ok)| Mat2Case { c, bk, bk2, ok })
+}
+
+/// classes whose window variances are exactly 0 or far above the EPS floor
+pub const EXACT_CLASSES: &[u8] = &[0, 1, 2, 4, 5, 6, 8, 9];
